@@ -73,7 +73,7 @@ Parse(r, hp) ==
     CASE r.t = "bytes" -> FromBlob(r.v, hp)
       [] r.t = "str" -> IF Len(r.v) \in {64, 66, 130} /\ IsHex(r.v) THEN FromBlob(UnHex(r.v), hp)
                         ELSE IF IsDec(r.v) /\ Len(r.v) \in 71..78
-                             THEN FromSecret(PadBE(Rev(ConvBEtoLE([i \in 1..Len(r.v) |-> r.v[i] - 48], 10, 256)), 32), "N")
+                             THEN FromSecret(PadBE(DecToBytes([i \in 1..Len(r.v) |-> r.v[i] - 48]), 32), "N")
                              ELSE NoParse
       [] r.t = "int" -> FromSecret(PadBE(r.v, 32), "N")
       [] r.t = "point" -> [NoParse EXCEPT !.kind = "pub", !.x = r.v, !.y = r.w]
